@@ -17,6 +17,20 @@ type Scope struct {
 	Include []string // path prefixes (directories end with /) or exact files
 	Exclude []string
 	KeyRe   *regexp.Regexp // optional: additionally restrict by function key
+	AtomRe  *regexp.Regexp // optional: keep only guard signatures matching this (focused inventories)
+}
+
+func (s Scope) filterInv(inv Inventory) Inventory {
+	if s.AtomRe == nil {
+		return inv
+	}
+	out := Inventory{}
+	for k, v := range inv {
+		if s.AtomRe.MatchString(k) {
+			out[k] = v
+		}
+	}
+	return out
 }
 
 func (s Scope) matchFile(rel string) bool {
@@ -96,7 +110,7 @@ func (r *Run) inventoryKeys(fds []*FuncDecl) []*FuncDecl {
 func (r *Run) EmitGuardRef(name string, scope Scope) error {
 	ri := &refInventory{Comment: "frozen guard inventory: function -> atom signature -> {n,must}; produced by `bcv emit`, inclusion rule (now ⊇ ref)", Functions: map[string]Inventory{}}
 	for _, fd := range r.inventoryKeys(r.Prog.FuncsIn(scope)) {
-		inv := r.G.InventoryOf(fd)
+		inv := scope.filterInv(r.G.InventoryOf(fd))
 		if len(inv) == 0 {
 			continue
 		}
@@ -188,7 +202,7 @@ func (r *Run) CheckGuardInventory(rule, name string, scope Scope, minFuncs int) 
 			found := ""
 			for k2, fd2 := range byKey {
 				if strings.HasPrefix(k2, pkgPrefix+".") && ri.Functions[k2] == nil {
-					if len(invIncludes(r.G.InventoryOf(fd2), ref)) == 0 {
+					if len(invIncludes(scope.filterInv(r.G.InventoryOf(fd2)), ref)) == 0 {
 						found = k2
 						break
 					}
@@ -201,7 +215,7 @@ func (r *Run) CheckGuardInventory(rule, name string, scope Scope, minFuncs int) 
 			r.FailKind("anchor-unresolved", rule, k, "function of the reference inventory no longer exists and no function of its package carries its guards")
 			continue
 		}
-		now := r.G.InventoryOf(fd)
+		now := scope.filterInv(r.G.InventoryOf(fd))
 		missing := invIncludes(now, ref)
 		pos := r.Prog.RelPos(fd.Decl.Pos())
 		if len(missing) == 0 {
